@@ -161,3 +161,28 @@ mutant('C03', 'coord from wrong column', NLP, "deltasize=deltasize)\n        sel
 mutant('C03', 'load count off by one', NLP, 'self.__coord[i] = len(terms) - 1', 'self.__coord[i] = len(terms)', 'NEIGHBORLIST')
 benign('C03', 'padding a bit larger', NL, 'supermin[j] -= 1.01 * cutoff', 'supermin[j] -= 1.05 * cutoff')
 benign('C03', 'cutoff test flipped', NL, 'if dmag2[w] < cutoff2:', 'if cutoff2 > dmag2[w]:')
+
+# ------------------------------------------------------------------ C05
+SYS = 'atomman/core/System.py'
+NRM = 'atomman/lammps/normalize.py'
+mutant('C05', 'wrap flags non-periodic direction too', SYS, "            if self.pbc[i]:\n                imageflags[:, i] = np.floor(spos[:, i])", "            if True:\n                imageflags[:, i] = np.floor(spos[:, i])", 'WRAP')
+mutant('C05', 'wrap rounds instead of floor', SYS, 'imageflags[:, i] = np.floor(spos[:, i])', 'imageflags[:, i] = np.rint(spos[:, i])', 'WRAP')
+mutant('C05', 'wrap upper bound elif', SYS, "                if max >= maxs[i]: ", "                elif max >= maxs[i]: ", 'WRAP')
+mutant('C05', 'wrap origin via enlarged vectors', SYS, "        origin = self.box.origin + mins.dot(self.box.vects) \n        avect = self.box.avect * (maxs[0] - mins[0])\n        bvect = self.box.bvect * (maxs[1] - mins[1])\n        cvect = self.box.cvect * (maxs[2] - mins[2])\n        self.box_set(avect=avect, bvect=bvect, cvect=cvect, origin=origin)",
+       "        vects = self.box.vects * (maxs - mins)[:, np.newaxis]\n        origin = self.box.origin + mins.dot(vects)\n        self.box_set(vects=vects, origin=origin)", 'WRAP')
+mutant('C05', 'wrap sets box before writing positions', SYS, "        self.atoms_prop('pos', value=spos, scale=True)\n        \n        # Modify box vectors and origin by new min and max", "        # Modify box vectors and origin by new min and max", 'WRAP')
+mutant('C05', 'wrap holds scaled positions while enlarging', SYS, 'self.box_set(avect=avect, bvect=bvect, cvect=cvect, origin=origin)', 'self.box_set(avect=avect, bvect=bvect, cvect=cvect, origin=origin, scale=True)', 'WRAP')
+mutant('C05', 'wrap adds flags', SYS, '        spos -= imageflags', '        spos += imageflags', 'WRAP')
+mutant('C05', 'box_set writes before setting', SYS, "            spos = self.atoms_prop('pos', scale=True)\n            self.box.set(**kwargs)\n            self.atoms_prop('pos', value=spos, scale=True)", "            spos = self.atoms_prop('pos', scale=True)\n            self.atoms_prop('pos', value=spos, scale=True)\n            self.box.set(**kwargs)", 'BOX-SET')
+mutant('C05', 'normalize flip holds scaled positions', NRM, "origin=system.box.origin + system.box.cvect)", "origin=system.box.origin + system.box.cvect, scale=True)", 'NORMALIZE')
+mutant('C05', 'normalize flip keeps origin', NRM, "origin=system.box.origin + system.box.cvect)", "origin=system.box.origin)", 'NORMALIZE')
+mutant('C05', 'normalize works on the input', NRM, "    system = deepcopy(system)\n", "", 'NORMALIZE')
+mutant('C05', 'normalize rebuild without scale', NRM, "gamma=system.box.gamma,\n                   scale=True)", "gamma=system.box.gamma)", 'NORMALIZE')
+mutant('C05', 'normalize alpha/beta swapped', NRM, 'alpha=system.box.alpha, beta=system.box.beta', 'alpha=system.box.beta, beta=system.box.alpha', 'NORMALIZE')
+mutant('C05', 'normalize forgets wrap', NRM, "    system.wrap()\n", "", 'NORMALIZE')
+mutant('C05', 'normalize handedness test inverted', NRM, 'system.box.cvect) < 0:', 'system.box.cvect) > 0:', 'NORMALIZE')
+mutant('C05', 'reciprocal cache reset conditional', 'atomman/core/Box.py', "        # Reset reciprocal_vects\n        self.__reciprocal_vects = None", "        if np.any(self.__vects == 0.0):\n            self.__reciprocal_vects = None", 'CACHE')
+benign('C05', 'wrap passes vects matrix', SYS, "        origin = self.box.origin + mins.dot(self.box.vects) \n        avect = self.box.avect * (maxs[0] - mins[0])\n        bvect = self.box.bvect * (maxs[1] - mins[1])\n        cvect = self.box.cvect * (maxs[2] - mins[2])\n        self.box_set(avect=avect, bvect=bvect, cvect=cvect, origin=origin)",
+       "        origin = self.box.origin + mins.dot(self.box.vects)\n        vects = self.box.vects * (maxs - mins)[:, np.newaxis]\n        self.box_set(vects=vects, origin=origin)")
+benign('C05', 'wrap subtracts flags explicitly', SYS, '        spos -= imageflags', '        spos = spos - imageflags')
+benign('C05', 'normalize handedness via triple product order', NRM, 'if np.dot(np.cross(system.box.avect, system.box.bvect), system.box.cvect) < 0:', 'if np.dot(system.box.avect, np.cross(system.box.bvect, system.box.cvect)) < 0:')
